@@ -72,8 +72,12 @@ def load(src=None):
             g["time"] = time_shim
         g["len"] = lib.slen
         g["range"] = lib.srange
-        g["int"] = lib.sint
-        g["float"] = lib.sfloat
+        # int / float are rebound only where the source converts symbolic scalars (elsewhere they are also used as
+        # numpy dtypes); a conversion anywhere else raises OutOfReach through SInt.__int__ / SReal.__float__
+        if name in ("ginjax.ml.training",):
+            g["int"] = lib.sint
+        if name in ("ginjax.ml.stopping_conditions",):
+            g["float"] = lib.sfloat
         g["print"] = lambda *a, **k: None
     out["_src"] = src
     _loaded = out
